@@ -197,6 +197,7 @@ func c12Run(env *core.Env, idx int) *core.CaseResult {
 	var wg sync.WaitGroup
 	var finished atomic.Int32
 	var refused atomic.Int64
+	var scanWrites atomic.Int64
 	refusing := idx%4 == 1 && !burst
 	var created, ddlDone atomic.Int64
 	ddl := idx%4 == 2 && !burst
@@ -338,6 +339,12 @@ func c12Run(env *core.Env, idx int) *core.CaseResult {
 						in.Tok += strings.Repeat("g", lr.Intn(40))
 					}
 					sql = fmt.Sprintf("UPDATE acct%d SET val = '%s' WHERE %s = %d;", in.Bank, in.Tok, in.Grp, in.X)
+					if lr.Intn(3) == 0 {
+						// the same group write on the scan path (OR keeps the optimizer from using the index): the statement walks the whole
+						// heap and meets the locks of other callers half way
+						sql = fmt.Sprintf("UPDATE acct%d SET val = '%s' WHERE %s = %d OR %s = %d;", in.Bank, in.Tok, in.Grp, in.X, in.Grp, in.X)
+						scanWrites.Add(1)
+					}
 				} else {
 					sql = fmt.Sprintf("SELECT id, val FROM acct%d WHERE %s = %d;", in.Bank, in.Grp, in.X)
 				}
@@ -445,6 +452,7 @@ func c12Run(env *core.Env, idx int) *core.CaseResult {
 	res.Add("operations", int64(len(ops)))
 	res.Add("clients", int64(clients))
 	res.Add("refused_statements_answered_with_an_error", refused.Load())
+	res.Add("group_writes_on_the_scan_path", scanWrites.Load())
 	res.Add("tables_created_by_callers_next_to_dml", ddlDone.Load())
 	if failure != "" {
 		k := "wrong-result"
